@@ -22,6 +22,7 @@ import (
 	"os"
 	"os/exec"
 	"path/filepath"
+	"runtime"
 	"sort"
 	"strconv"
 	"strings"
@@ -344,7 +345,11 @@ func b(v bool) string { return vh.B(v) }
 
 func main() {
 	if mode := os.Getenv("C19_CHILD"); mode != "" {
-		sysChild(mode)
+		if mode == "conc" {
+			concChild()
+		} else {
+			sysChild(mode)
+		}
 		return
 	}
 	o := vh.ParseFlags()
@@ -368,7 +373,7 @@ func main() {
 				chCodec.Add(l, runCodec(l), true, "replay")
 			case "fetch":
 				chFetch.Add(l, runFetch(l), true, "replay")
-			case "async":
+			case "async", "asyncconc":
 				sysLines = append(sysLines, l)
 			}
 		}
@@ -700,6 +705,116 @@ func sysChild(phase string) {
 	emit()
 }
 
+// concChild: several async searches started together on one store, round after round (GOMAXPROCS(1) makes the reuse
+// of pooled buffers between the goroutines of concurrently processed requests deterministic); every finished result
+// must equal the synchronous search.  Line: asyncconc fracs=<n> per=<docs per fraction> services=<s> rounds=<r>
+func concChild() {
+	logger.SetLevel(zap.FatalLevel)
+	runtime.GOMAXPROCS(1)
+	out := sysOut{Phase: "conc"}
+	emit := func() {
+		bts, _ := json.Marshal(out)
+		fmt.Println(string(bts))
+	}
+	line, _ := bufio.NewReader(os.Stdin).ReadString('\n')
+	m := kv(strings.Fields(line)[1:])
+	dir := os.Getenv("C19_DIR")
+	nf, per, services, rounds := atoi(m["fracs"]), atoi(m["per"]), atoi(m["services"]), atoi(m["rounds"])
+	os.MkdirAll(filepath.Join(dir, "data"), 0o755)
+	fm := fracmanager.NewFracManager(&fracmanager.Config{DataDir: filepath.Join(dir, "data"), FracSize: 1 << 30, TotalSize: 1 << 40, MaintenanceDelay: time.Hour})
+	if err := fm.Load(context.Background()); err != nil {
+		out.Err = "load: " + err.Error()
+		emit()
+		return
+	}
+	fm.Start()
+	n := 0
+	for f := 0; f < nf; f++ {
+		dp := frac.NewDocProvider()
+		for i := 0; i < per; i++ {
+			n++
+			dp.Append([]byte("document"), nil, seq.ID{MID: seq.MID(n * 1000), RID: seq.RID(n % 3)},
+				seq.Tokens("_all_:", fmt.Sprintf("service:svc%d", n%services), fmt.Sprintf("k8s_pod:pod%d", n%5)))
+		}
+		dm, mm := dp.Provide()
+		if err := fm.Append(context.Background(), dm, mm); err != nil {
+			out.Err = "append: " + err.Error()
+			emit()
+			return
+		}
+		fm.WaitIdle()
+		if f < nf-1 {
+			fm.SealForcedForTests()
+		}
+	}
+	as := fracmanager.MustStartAsync(fracmanager.AsyncSearcherConfig{DataDir: filepath.Join(dir, "async"), Parallelism: services}, mapping{}, fm)
+	params := func(query string) processor.SearchParams {
+		ast, err := parser.ParseSeqQL(query, seq.TestMapping)
+		if err != nil {
+			panic(err)
+		}
+		return processor.SearchParams{AST: ast.Root,
+			AggQ:         []processor.AggQuery{{GroupBy: &parser.Literal{Field: "k8s_pod", Terms: []parser.Term{{Kind: parser.TermSymbol, Data: "*"}}}, Func: seq.AggFuncCount}},
+			HistInterval: 1000, From: 0, To: seq.MID(1 << 40), Limit: math.MaxInt32, Order: seq.DocsOrderDesc}
+	}
+	sync := make([]string, services)
+	for sv := 0; sv < services; sv++ {
+		sq, err := fracmanager.NewSearcher(1, fracmanager.SearcherCfg{}).SearchDocs(context.Background(), fm.GetAllFracs(), params(fmt.Sprintf("service:svc%d", sv)))
+		if err != nil {
+			out.Err = "sync: " + err.Error()
+			emit()
+			return
+		}
+		sync[sv] = canon(sq, "count")
+	}
+	for round := 0; round < rounds; round++ {
+		ids := make([]string, services)
+		for sv := 0; sv < services; sv++ {
+			ids[sv] = fmt.Sprintf("r%03ds%d", round, sv)
+			p := params(fmt.Sprintf("service:svc%d", sv))
+			p.AST = nil
+			if err := as.StartSearch(fracmanager.AsyncSearchRequest{ID: ids[sv], Query: fmt.Sprintf("service:svc%d", sv), Params: p, Retention: time.Hour}); err != nil {
+				out.Err = "start: " + err.Error()
+				emit()
+				return
+			}
+		}
+		for sv := 0; sv < services; sv++ {
+			deadline := time.Now().Add(10 * time.Second)
+			var got string
+			for {
+				var pan string
+				func() {
+					defer func() {
+						if x := recover(); x != nil {
+							pan = fmt.Sprint(x)
+						}
+					}()
+					resp, ok := as.FetchSearchResult(fracmanager.FetchSearchResultRequest{ID: ids[sv]})
+					if ok && resp.Done {
+						got = canon(&resp.QPR, "count")
+					}
+				}()
+				if pan != "" {
+					got = "fetch-panic: " + pan
+				}
+				if got != "" || time.Now().After(deadline) {
+					break
+				}
+				time.Sleep(time.Millisecond)
+			}
+			if got != sync[sv] {
+				out.Async, out.Sync = got, sync[sv]
+				out.Err = fmt.Sprintf("round %d request %s", round, ids[sv])
+				emit()
+				return
+			}
+		}
+	}
+	out.Writes = rounds * services
+	emit()
+}
+
 func runChild(phase, dir, line string, tmo time.Duration) (sysOut, int, string) {
 	cmd := exec.Command(os.Args[0])
 	cmd.Env = append(os.Environ(), "C19_CHILD="+phase, "C19_DIR="+dir)
@@ -809,6 +924,7 @@ func witnessLines() []string {
 func runSys(lines []string, orc *vh.Oracle, rep *vh.Report, o vh.Opts) {
 	if o.Replay == "" {
 		lines = append(witnessLines(), lines...)
+		lines = append(lines, fmt.Sprintf("asyncconc fracs=6 per=24 services=8 rounds=%d", o.Pick(60, 300)))
 	}
 	root, err := os.MkdirTemp("", "c19sys")
 	if err != nil {
@@ -820,6 +936,22 @@ func runSys(lines []string, orc *vh.Oracle, rep *vh.Report, o vh.Opts) {
 		m := kv(strings.Fields(line)[1:])
 		dir := filepath.Join(root, fmt.Sprintf("c%d", i))
 		os.MkdirAll(dir, 0o755)
+		if strings.HasPrefix(line, "asyncconc ") {
+			out, code, se := runChild("conc", dir, line, 120*time.Second)
+			os.RemoveAll(dir)
+			orc.Case(line, true, "concurrent-searches")
+			switch {
+			case code != 0:
+				rep.Violate(vh.Violation{Site: "fracmanager/async_searcher.go:processFrac", Class: "concurrent-" + classOfDeath(se),
+					What: fmt.Sprintf("store process died (exit %d) with concurrent async searches: %s", code, lastLine(se)), Replay: []string{line}})
+			case out.Async != out.Sync:
+				rep.Violate(vh.Violation{Site: "fracmanager/async_searcher.go:processFrac", Class: "concurrent-searches-result-differs-from-sync",
+					What: fmt.Sprintf("%s: async: %.300s ; sync: %.300s", out.Err, out.Async, out.Sync), Replay: []string{line}})
+			case out.Err != "":
+				orc.Error = "concurrent child: " + out.Err
+			}
+			continue
+		}
 		k := len(strings.Split(m["layout"], ";"))
 		out, code, se := runChild("build", dir, line, 40*time.Second)
 		crashed := code == 7
